@@ -1,6 +1,8 @@
 package main
 
 import (
+	"fmt"
+	"github.com/advancedclimatesystems/gonnx"
 	"math"
 	"reflect"
 
@@ -172,6 +174,11 @@ func typedField(t *TPJ, code int32, vals []uint64) bool {
 }
 
 func genC12(e *emitter, tier string) {
+	for _, typed := range []bool{true, false} {
+		for _, dt := range []string{"f32", "f64"} {
+			e.emit(constantBitsCase(typed, dt))
+		}
+	}
 	shapes := [][]int64{{}, {1}, {3}, {2, 2}, {1, 3}, {2, 1, 2}, {1, 2, 1, 2}, {2, 3}}
 	if tier == "thorough" {
 		for _, s := range allShapes(4, 3) {
@@ -320,3 +327,56 @@ func genC12(e *emitter, tier string) {
 
 func f32bits(f float32) uint32 { return math.Float32bits(f) }
 func f64bits(f float64) uint64 { return math.Float64bits(f) }
+
+// constantBitsCase: a model with several Constant nodes whose payloads are equal as NUMBERS but not as bits
+// (+0 / -0, NaNs of different sign and payload) and otherwise identical; every node must deliver ITS bits, on
+// every Run. Judged on the implementation alone (kind "bits").
+func constantBitsCase(typed bool, dt string) *Case {
+	c := &Case{Kind: "bits", Stream: "constants-equal-as-numbers", P: map[string]any{"typed": typed, "dt": dt}}
+	c.Impl = guard(func() *Result {
+		var pats [][]uint64
+		if dt == "f32" {
+			pats = [][]uint64{{0x00000000, 0x7fc00001, 0x3f800000}, {0x80000000, 0xffc00002, 0x3f800000}, {0x00000000, 0x7fc00000, 0x3f800000}, {0x80000000, 0x7fc00001, 0x3f800000}}
+		} else {
+			pats = [][]uint64{{0, 0x7ff8000000000001, 0x3ff0000000000000}, {0x8000000000000000, 0xfff8000000000002, 0x3ff0000000000000}, {0, 0x7ff8000000000000, 0x3ff0000000000000}}
+		}
+		code, w := int32(1), 4
+		if dt == "f64" {
+			code, w = 11, 8
+		}
+		gp := &onnx.GraphProto{}
+		var names []string
+		for i, p := range pats {
+			t := &TPJ{DataType: code, Dims: []int64{3}}
+			if typed {
+				typedField(t, code, p)
+			} else {
+				t.Raw, t.HasRaw = leBytes(p, w), true
+			}
+			nm := fmt.Sprintf("c%d", i)
+			names = append(names, nm)
+			gp.Node = append(gp.Node, &onnx.NodeProto{OpType: "Constant", Output: []string{nm}, Attribute: []*onnx.AttributeProto{{Name: "value", Type: onnx.AttributeProto_TENSOR, T: t.proto()}}})
+			gp.Output = append(gp.Output, &onnx.ValueInfoProto{Name: nm})
+		}
+		mp := &onnx.ModelProto{Graph: gp, OpsetImport: []*onnx.OperatorSetIdProto{{Version: 13}}}
+		m, err := gonnx.NewModel(mp)
+		if err != nil {
+			return errResult(err)
+		}
+		var bad []string
+		for run := 0; run < 2; run++ {
+			outs, err := m.Run(gonnx.Tensors{})
+			if err != nil {
+				return errResult(err)
+			}
+			for i, nm := range names {
+				_, bits, ok := bitsOf(outs[nm])
+				if !ok || fmt.Sprint(bits) != fmt.Sprint(pats[i]) {
+					bad = append(bad, fmt.Sprintf("run %d, %s: bits %x, the node holds %x", run, nm, bits, pats[i]))
+				}
+			}
+		}
+		return &Result{Status: "ok", Extra: map[string]any{"mismatches": bad}}
+	})
+	return c
+}
